@@ -78,7 +78,8 @@ type C14Case struct {
 	RotSeed  []int      `json:"rot_seed"`
 	Reverse  []bool     `json:"reverse"`
 	PermSeed []int      `json:"perm_seed"`
-	TX, TY   int        `json:"tx"`
+	TX       int        `json:"tx"`
+	TY       int        `json:"ty"`
 	T        [6]float64 `json:"t"` // affine transform for Area(WithTransform)
 	ZMct     int        `json:"zm_ct"`
 }
